@@ -12,7 +12,7 @@ const F = { TEXT: 1, CLASS: 2, STYLE: 4, PROPS: 8, FULL_PROPS: 16, HYDRATE_EVENT
 
 const ALPHABET = ['strPlain', 'valueless', 'num', 'objConst', 'identUnbound', 'call', 'member', 'classStr', 'classExpr', 'styleObj', 'styleExpr',
   'key', 'ref', 'onClick', 'onOther', 'onUpdate', 'onUpdateModel', 'namespaced', 'spreadIdent', 'spreadObjLit', 'onObj', 'nativeOnObj',
-  'dirCustom', 'dirShow', 'html', 'textc', 'model', 'modelComputed', 'undef', 'arrow', 'template', 'onClickConst', 'onOtherConst', 'camelNsName', 'onVnodeHook'];
+  'dirCustom', 'dirShow', 'html', 'textc', 'model', 'modelComputed', 'undef', 'arrow', 'template', 'onClickConst', 'onOtherConst', 'camelNsName', 'onVnodeHook', 'tsAsConstArr', 'tsAsConstObj', 'tsWrappedIdent'];
 
 function makeItem(b, rng, kind, st, hostInfo) {
   switch (kind) {
@@ -121,7 +121,7 @@ export function* generate({ tier, seed }) {
   let n = 0;
   const emit = (hk, kinds, variants) => {
     const c = buildFlagCase(rng, hk, kinds);
-    return { gid: `C13-${n++}`, src: c.src, syntax: 'jsx', spec: c.spec, feature: `${hk}|${c.kinds.join(',')}`, variants: variants.map((o, i) => ({ vid: `v${i}`, options: o })) };
+    return { gid: `C13-${n++}`, src: c.src, syntax: c.kinds.some((k) => /^ts[A-Z]/.test(k)) ? 'tsx' : 'jsx', spec: c.spec, feature: `${hk}|${c.kinds.join(',')}`, variants: variants.map((o, i) => ({ vid: `v${i}`, options: o })) };
   };
   const maxLen = tier === 'quick' ? 2 : 3;
   for (const hk of ['element', 'component', 'memberHtml']) for (const seq of sequences(ALPHABET, hk === 'memberHtml' ? 1 : maxLen)) {
